@@ -178,10 +178,11 @@ def run(ctx):
                     report("rerun after a torn write reports success but %s differ" % wrongfiles, replay2)
             continue
         # no torn write: rerunning must complete as if the fault had never occurred
-        if opname.startswith("repair") and c["ev"].startswith("W:"):
+        if fmt == "par2" and opname.startswith("repair|swapped") and c["ev"].startswith("W:"):
             # Repair rewrites files in place, in order: a completed earlier write may have overwritten the only copy of
             # slices another file needs (swapped files, no spare block)  ->  recorded known finding
-            replay2["class"] = {"kind": "repair-rerun-after-inplace-overwrite"}
+            # (identified by the state: PAR2, two files holding each other's content; any other rerun failure is reported)
+            replay2["class"] = {"kind": "repair-rerun-after-inplace-overwrite", "state": "par2 swapped files"}
         report("after the fault is gone the rerun does not complete as the fault-free run does (%s %s, fault %s at %s): rerun %s, fault-free %s" %
                (fmt, opname, c["sched"], c["ev"][:50], i.split(" trace=")[0], c["base"]["res"]), replay2)
     # ---------------- REAL directory: failures the operating system itself produces ----------------
